@@ -1,4 +1,5 @@
 import Nervus.Driver.Util
+import Nervus.Driver.BTree
 import Nervus.Driver.Backup
 import Nervus.Driver.CapiSched
 import Nervus.Driver.Codec
@@ -7,7 +8,9 @@ import Nervus.Driver.CypherUpdate
 import Nervus.Driver.Handles
 import Nervus.Driver.Locks
 import Nervus.Driver.OKey
+import Nervus.Driver.Pager
 import Nervus.Driver.SnapSched
+import Nervus.Driver.Vacuum
 import Nervus.Driver.WalFrame
 open Nervus.Driver
 
@@ -24,18 +27,9 @@ def streams : List (String × Stream) := ([] : List (String × Stream))
   |>.cons ("query", CypherStream.stream)
   |>.cons ("querystat", CypherStream.statStream)
   |>.cons ("update", UpdateStream.stream)
-import Nervus.Driver.BTree
-import Nervus.Driver.Pager
-import Nervus.Driver.Vacuum
-open Nervus.Driver
-
-/-- stream registry: one line per stream (kept one-per-line so that merges are unions) -/
-def streams : List (String × Stream) := [
-  ("okey", OKeyStream.stream),
-  ("btree", BTreeStream.stream),
-  ("pager", PagerStream.stream),
-  ("vacuum", VacuumStream.stream)
-]
+  |>.cons ("btree", BTreeStream.stream)
+  |>.cons ("pager", PagerStream.stream)
+  |>.cons ("vacuum", VacuumStream.stream)
 
 def main (args : List String) : IO UInt32 := do
   match args with
